@@ -150,6 +150,12 @@ def _act(policy, obs, mask, keys):
 
 
 @eqx.filter_jit
+def _av_many(policy, obs, mask, keys):
+    _, a, _, lp = jax.vmap(lambda k: policy.action_and_value(None, obs, key=k, action_mask=mask))(keys)
+    return a, lp
+
+
+@eqx.filter_jit
 def _evaluate(policy, obs, actions, mask):
     return jax.vmap(lambda a: policy.evaluate_action(None, obs, a, action_mask=mask))(actions)
 
@@ -198,9 +204,25 @@ def oracle_ac_policy(ctx: Ctx, case):
     ctx.close(av_lp, ev_lp, "C16/policy/reported-log-prob-not-of-the-sampled-action", tags=tags, rtol=1e-5, atol=1e-5)
     ctx.check(bool(np.all(np.isfinite(np.asarray(av_lp)))), "C16/policy/non-finite-log-prob-of-own-sample", tags=tags)
     ctx.close(av_v, ev_v, "C16/policy/value-differs-between-act-and-evaluate", tags=tags, rtol=1e-6, atol=1e-6)
+    joint = False
+    if kind in ("multidiscrete", "multibinary"):
+        # product laws: the *joint* frequencies of the sampled action vectors follow exp(reported log-prob) - components drawn
+        # with shared randomness keep every marginal right and every reported number self-consistent, only the joint is off
+        N2 = 1024
+        acts2, lps2 = _av_many(policy, obs, mask, jr.split(jr.key(case["key"] + 1), N2))
+        acts2, lps2 = np.asarray(acts2).reshape(N2, -1), np.asarray(lps2, np.float64)
+        uniq, first, counts = np.unique(acts2, axis=0, return_index=True, return_counts=True)
+        for a, i, c in zip(uniq, first, counts):
+            from scipy.stats import binom
+
+            pr = float(np.clip(np.exp(lps2[i]), 0.0, 1.0))
+            # exact two-sided binomial tail; 1e-12 keeps the false-alarm rate negligible over every outcome of a thorough run
+            tail = float(min(binom.cdf(int(c), N2, pr), binom.sf(int(c) - 1, N2, pr)))
+            ctx.check(tail > 1e-12, "C16/policy/joint-sample-frequency-differs-from-reported-probability", tags=tags, action=a.tolist(), frequency=c / N2, reported_probability=pr, binomial_tail=tail)
+        joint = len(uniq) >= 3
     m = np.asarray(case["mask"], bool)
     restrictive = not m.all()
-    ctx.count(nontrivial=restrictive, classes=[kind] + ["restrictive"] * restrictive, key=[kind, case["mask"], case["pkey"] % 128])
+    ctx.count(nontrivial=restrictive, classes=[kind] + ["restrictive"] * restrictive + ["joint_law_checked"] * joint, key=[kind, case["mask"], case["pkey"] % 128])
 
 
 @eqx.filter_jit
